@@ -298,3 +298,63 @@ Fixpoint spec_eval (l : list pinstr) (t : Q) : Q :=
       then eval_step (fst (wave_arrays (p_wave i))) (snd (wave_arrays (p_wave i))) (t - p_start i)
       else spec_eval r t
   end.
+
+(* ---- specification predicates (hypotheses of the theorems) -------------------------------- *)
+
+Fixpoint incr_from (a : Q) (l : list Q) : Prop :=
+  match l with
+  | [] => True
+  | x :: r => a < x /\ incr_from x r
+  end.
+
+(* a time grid increases strictly *)
+Definition strictly_increasing (l : list Q) : Prop :=
+  match l with
+  | [] => True
+  | x :: r => incr_from x r
+  end.
+
+Definition w_ts (w : wave) : list Q := fst (wave_arrays w).
+Definition w_cs (w : wave) : list Q := snd (wave_arrays w).
+
+Definition step_of (w : wave) : Q :=
+  match w with
+  | Scalar d _ => d
+  | Sampled (t0 :: t1 :: _) _ => t1 - t0
+  | Sampled _ _ => 0
+  end.
+
+Definition is_discrete (w : wave) : Prop := length (w_ts w) = S (length (w_cs w)).
+Definition is_continuous (w : wave) : Prop := length (w_ts w) = length (w_cs w).
+
+(* a well-formed instruction waveform: grid starts at 0, increases strictly, has at least one interval
+   (so the duration is positive), and the coefficient array has one of the two admissible lengths *)
+Definition wf_wave (w : wave) : Prop :=
+  exists t0 r, w_ts w = t0 :: r /\ t0 == 0 /\ r <> [] /\ incr_from t0 r
+               /\ (is_discrete w \/ is_continuous w).
+
+Definition p_end (i : pinstr) : Q := p_start i + wave_end (p_wave i).
+
+(* the instructions of one channel are well formed, ordered by start and do not overlap
+   ([last] = end of the previous window, 0 for the first) *)
+Fixpoint chain_ord (last : Q) (l : list pinstr) : Prop :=
+  match l with
+  | [] => True
+  | i :: r => wf_wave (p_wave i) /\ last <= p_start i /\ chain_ord (p_end i) r
+  end.
+
+(* guard: every idle gap is either absent or larger than the code's tolerance 1e-6 * step_size *)
+Fixpoint gaps_ok (last : Q) (l : list pinstr) : Prop :=
+  match l with
+  | [] => True
+  | i :: r => (p_start i == last \/ step_of (p_wave i) * tol < p_start i - last)
+              /\ gaps_ok (p_end i) r
+  end.
+
+(* guard under which the unchanged first-pulse test is right: when an instruction that is not the
+   first of its channel is reached, the time elapsed on the channel is at least 1e-6 * its step *)
+Fixpoint ratio_ok (last : Q) (l : list pinstr) : Prop :=
+  match l with
+  | [] => True
+  | i :: r => step_of (p_wave i) * tol <= last /\ ratio_ok (p_end i) r
+  end.
